@@ -163,10 +163,155 @@ class Body(object):
                 if o not in seen:
                     seen.append(o)
             succ[i] = seen
-            for o in seen:
+        # drop-flag constant propagation: prune the infeasible edge of `switchInt(flag)` where the compiler
+        # generated flag is known on every path reaching the switch
+        for (a, b_) in self._infeasible_flag_edges(succ):
+            if b_ in succ[a] and len(succ[a]) > 1:
+                succ[a] = [x for x in succ[a] if x != b_]
+        for i in range(n):
+            for o in succ[i]:
                 pred[o].append(i)
         self._succ = succ
         self._pred = pred
+
+    def flag_product(self, cap=4096):
+        """Path-sensitive expansion of the CFG on compiler-generated drop flags.  Returns (entry, succ) with nodes
+        (bb, state) where state is a sorted tuple of (flag, 0/1) for the flags whose value is known, or None when the
+        body has no flags or the expansion would exceed `cap` nodes (callers then fall back to the plain CFG)."""
+        if hasattr(self, "_fprod"):
+            return self._fprod
+        self._build_cfg()
+        flags = self._flag_locals()
+        res = None
+        if flags:
+            entry = (0, ())
+            succ = {}
+            work = [entry]
+            seen = {entry}
+            ok = True
+            while work:
+                node = work.pop()
+                b, st0 = node
+                st = dict(st0)
+                blk = self.blocks[b]
+                for s in blk["stmts"]:
+                    if s["k"] == "assign" and not s["lhs"]["p"] and s["lhs"]["l"] in flags:
+                        st[s["lhs"]["l"]] = 1 if s["rv"]["op"]["const"]["v"] else 0
+                t = blk["term"]
+                outs = list(self._succ[b])
+                if t["k"] == "switch":
+                    pl = t["discr"].get("copy") or t["discr"].get("move")
+                    if pl is not None and not pl["p"] and pl["l"] in flags and pl["l"] in st:
+                        listed = dict((x, y) for x, y in t["targets"])
+                        tgt = listed.get(st[pl["l"]], t["otherwise"])
+                        if tgt in outs:
+                            outs = [tgt]
+                key = tuple(sorted(st.items()))
+                nxt = [(o, key) for o in outs]
+                succ[node] = nxt
+                for x in nxt:
+                    if x not in seen:
+                        seen.add(x)
+                        work.append(x)
+                if len(seen) > cap:
+                    ok = False
+                    break
+            if ok:
+                res = (entry, succ)
+        self._fprod = res
+        return res
+
+    def _flag_locals(self):
+        """Compiler-generated drop flags: unnamed bool locals that are only ever assigned boolean literals."""
+        named = set(self.names.keys())
+        cand = {}
+        for i, blk in enumerate(self.blocks):
+            for s in blk["stmts"]:
+                if s["k"] != "assign" or s["lhs"]["p"]:
+                    continue
+                l = s["lhs"]["l"]
+                if self.prog.types[self.locals[l]].get("s") != "bool" or l in named or l <= self.argc:
+                    continue
+                rv = s["rv"]
+                if rv["k"] == "use" and "const" in rv["op"] and "v" in rv["op"]["const"]:
+                    cand.setdefault(l, True)
+                else:
+                    cand[l] = False
+            t = blk["term"]
+            if t["k"] == "call" and not t["dest"]["p"]:
+                cand[t["dest"]["l"]] = False
+        return set(l for l, ok in cand.items() if ok)
+
+    def _infeasible_flag_edges(self, succ):
+        flags = self._flag_locals()
+        if not flags:
+            return []
+        TOP = 2
+        n = len(self.blocks)
+        IN = {0: {}}
+        work = [0]
+        while work:
+            b = work.pop()
+            st = dict(IN[b])
+            blk = self.blocks[b]
+            if blk["cleanup"]:
+                continue
+            for s in blk["stmts"]:
+                if s["k"] == "assign" and not s["lhs"]["p"] and s["lhs"]["l"] in flags:
+                    st[s["lhs"]["l"]] = 1 if s["rv"]["op"]["const"]["v"] else 0
+            t = blk["term"]
+            outs = list(succ[b])
+            if t["k"] == "switch":
+                pl = t["discr"].get("copy") or t["discr"].get("move")
+                if pl is not None and not pl["p"] and pl["l"] in flags and st.get(pl["l"], TOP) != TOP:
+                    v = st[pl["l"]]
+                    listed = dict((x, y) for x, y in t["targets"])
+                    tgt = listed.get(v, t["otherwise"])
+                    outs = [tgt] if tgt in succ[b] else outs
+            for o in outs:
+                if o not in IN:
+                    IN[o] = dict(st)
+                    work.append(o)
+                else:
+                    cur = IN[o]
+                    changed = False
+                    for k in set(cur) | set(st):
+                        a_, b2 = cur.get(k, None), st.get(k, None)
+                        if k not in cur:
+                            # first time we see k on this path: other paths had it unset (= unknown)
+                            cur[k] = TOP
+                            changed = True
+                        elif k not in st:
+                            if cur[k] != TOP:
+                                cur[k] = TOP
+                                changed = True
+                        elif a_ != b2 and a_ != TOP:
+                            cur[k] = TOP
+                            changed = True
+                    if changed:
+                        work.append(o)
+        bad = []
+        for b, st in IN.items():
+            blk = self.blocks[b]
+            st = dict(st)
+            for s in blk["stmts"]:
+                if s["k"] == "assign" and not s["lhs"]["p"] and s["lhs"]["l"] in flags:
+                    st[s["lhs"]["l"]] = 1 if s["rv"]["op"]["const"]["v"] else 0
+            t = blk["term"]
+            if t["k"] != "switch":
+                continue
+            pl = t["discr"].get("copy") or t["discr"].get("move")
+            if pl is None or pl["p"] or pl["l"] not in flags:
+                continue
+            v = st.get(pl["l"], TOP)
+            if v == TOP:
+                continue
+            listed = dict((x, y) for x, y in t["targets"])
+            tgt = listed.get(v, t["otherwise"])
+            for o in succ[b]:
+                if o != tgt:
+                    bad.append((b, o))
+        return bad
 
     def normal_blocks(self):
         return [i for i, b in enumerate(self.blocks) if not b["cleanup"]]
